@@ -11,6 +11,9 @@ Streams
   dangling  prior workspaces holding dangling symbolic links (a symlink checkout whose cache objects were
             collected): outside the target, at a target file path, at a target directory path, inside a directory
             that must disappear; all link types, delete on/off, all explicit-directory target forms.
+  retry     two-round histories on ONE lazily loaded target index object with a non-raising index.onerror: round 1
+            while a directory object is missing from the cache (failure reported), the object arrives, round 2
+            with the same index object (control: a fresh one) must converge; both rounds go through the model.
   implicit  targets made of file entries only (and lazy directories below parents without an
             entry): the directories of the target are implicit trie nodes. delete=True only.
   branch    the per-change branch of _compare alone, exhaustively: translation validation of the GENERATED
@@ -285,6 +288,12 @@ def plan_keys(d):
     }
 
 
+def _plant_once(odb, oid, data):
+    # never rewrite an object that is already in the cache (workspace links share its inode and mode)
+    if not os.path.exists(odb.oid_to_path(oid)):
+        impl.plant(odb.path, oid, data)
+
+
 def build_target(case, root, odb):
     """returns (DataIndex, model target entries [(key, tentry-term)], trees {id: listing}, nodes)"""
     from dvc_objects.fs.local import localfs
@@ -319,7 +328,7 @@ def build_target(case, root, odb):
             hi = None
             if e["c"] is not None:
                 oid = impl.md5hex(e["c"].encode())
-                impl.plant(odb.path, oid, e["c"].encode())
+                _plant_once(odb, oid, e["c"].encode())
                 hi = HashInfo("md5", oid)
                 contents.add(e["c"])
             new[k] = DataIndexEntry(key=k, meta=Meta(isexec=e["x"]), hash_info=hi)
@@ -331,11 +340,11 @@ def build_target(case, root, odb):
             lst = []
             for rel, c in e["tree"].items():
                 oid = impl.md5hex(c.encode())
-                impl.plant(odb.path, oid, c.encode())
+                _plant_once(odb, oid, c.encode())
                 lst.append((rel, oid))
                 contents.add(c)
             doid = impl.dir_oid(lst)
-            impl.plant(odb.path, doid, impl.canon_listing(lst))
+            _plant_once(odb, doid, impl.canon_listing(lst))
             new[k] = DataIndexEntry(key=k, meta=Meta(isdir=True), hash_info=HashInfo("md5", doid))
             tid = "t%d" % i
             trees[tid] = (dict(e["tree"]), doid)
@@ -367,10 +376,13 @@ def run_real(ctx, case):
             os.unlink(p)
         gone.add(c)
     gone_trees = set()
+    replant = {}
     for tid in case.get("rm_trees", []):
         if tid in trees:
             p = odb.oid_to_path(trees[tid][1])
             if os.path.exists(p):
+                with open(p, "rb") as f:
+                    replant[trees[tid][1]] = f.read()
                 os.chmod(p, 0o644)
                 os.unlink(p)
             # equal listings are one object: every entry naming it is unavailable
@@ -417,6 +429,40 @@ def run_real(ctx, case):
     except Exception as exc:  # noqa: BLE001
         res["plan2"] = None
         res["exc"] = "second compare raised " + type(exc).__name__
+    if case.get("retry"):
+        # round 2 of a retry history: the missing directory objects have arrived; the SAME target index object
+        # (or, as a control, a fresh one) is compared and applied again
+        for doid, data in replant.items():
+            impl.plant(odb.path, doid, data)
+        idx2 = new
+        if case.get("fresh_index"):
+            idx2, _, _, _ = build_target(case, root, odb)
+            if case.get("collect_onerror"):
+                idx2.onerror = lambda entry, exc: cerrs.append(entry.key)
+        r2 = {"exc": None, "raised": None}
+        errs2 = []
+
+        def onerror2(src, dest, exc):
+            rel = os.path.relpath(dest, wsdir).replace(os.sep, "/")
+            k = () if rel == "." else tuple(rel.split("/"))
+            errs2.append((2 if src is not None else (1 if exc is None else 3), k, type(exc).__name__))
+
+        d3 = compare(ws_index(), idx2, delete=case["delete"])
+        r2["plan1"] = plan_keys(d3)
+        r2["order"] = [e.key for e in d3.files_chmod]
+        r2["order_dc"] = [e.key for e in d3.dirs_create]
+        try:
+            apply(d3, wsdir, localfs, onerror=onerror2, update_meta=False)
+        except Exception as exc:  # noqa: BLE001
+            r2["raised"] = type(exc).__name__
+        r2["errs"] = sorted(errs2)
+        r2["walk"], r2["litter"] = walk_ws(wsdir)
+        try:
+            r2["plan2"] = plan_keys(compare(ws_index(), idx2, delete=case["delete"]))
+        except Exception as exc:  # noqa: BLE001
+            r2["plan2"] = None
+            r2["exc"] = "compare after the retry raised " + type(exc).__name__
+        res["r2"] = r2
     res["model_target"] = mt
     res["trees"] = {tid: t for tid, (t, _) in trees.items() if tid not in gone_trees}
     res["all_trees"] = {tid: t for tid, (t, _) in trees.items()}
@@ -495,6 +541,33 @@ def case_term(case, res):
                                    clist([cbytes(c) for c in res["avail"]]), clist(trees),
                                    clist([ckey(k) for k in res["order"]]), clist([ckey(k) for k in res["order_dc"]]),
                                    clist(ws_items), clist(tg)))
+
+
+def retry_term(case, res):
+    r2 = res["r2"]
+    trees2 = [cpair(cbytes(tid), clist([cpair(ckey(key_of(rel)), cbytes(c)) for rel, c in t.items()]))
+              for tid, t in res["all_trees"].items()]
+    return "(%s, %s, %s, %s)" % (case_term(case, res), clist(trees2), clist([ckey(k) for k in r2["order"]]),
+                                 clist([ckey(k) for k in r2["order_dc"]]))
+
+
+def retry_expected(res):
+    r2 = res["r2"]
+    return vL([vplan(res["plan1"]), vwalk(res["walk"]), verrs(res["errs"]), vN(1 if res["raised"] else 0),
+               vplan(r2["plan1"]), vwalk(r2["walk"]), verrs(r2["errs"]), vN(1 if r2["raised"] else 0),
+               vplan(r2["plan2"])])
+
+
+def retry_oracle(case, res):
+    """after round 2 every directory object is there: the property's clauses apply to round 2 as to any checkout"""
+    r2 = res["r2"]
+    case2 = {k: v for k, v in case.items() if k != "rm_trees"}
+    case2["prior"] = {}
+    res2 = dict(res, gone_trees=[], trees=res["all_trees"], plan1=r2["plan1"], errs=r2["errs"], raised=r2["raised"],
+                walk=r2["walk"], plan2=r2["plan2"], exc=r2["exc"])
+    how = "a fresh target index" if case.get("fresh_index") else "the same target index object"
+    return [("C09:retry:" + sig[4:], f"round 2 ({how}, directory objects now present): {what}")
+            for sig, what in oracle(case2, res2)]
 
 
 def expected_val(res):
@@ -732,7 +805,39 @@ def gen_case(ctx, form=None):
     return case
 
 
-def judge(ctx, case, items, stream):
+def scripted_retry():
+    A, B = ("A", False), ("B", True)
+    out = []
+    for prior, target in [({}, {"d/a": A, "d/b/c": B, "k": A}), ({"d": A, "x/y": B}, {"d/a": A, "d/b/c": B}),
+                          ({"d/a": B, "d/z": A}, {"d/a": A, "d/b/c": B})]:
+        for link in ("copy", "hardlink", "symlink"):
+            for fresh in (False, True):
+                spec = [{"k": "d", "t": "lazy", "tree": {f[2:]: c for f, (c, _) in target.items() if f.startswith("d/")}}]
+                spec += [{"k": f, "t": "f", "x": x, "c": c} for f, (c, x) in target.items() if not f.startswith("d/")]
+                out.append({"prior": prior, "target_tree": target, "form": "mixed", "spec": spec, "delete": True,
+                            "link": link, "cls": "local", "rm_trees": ["t0"], "collect_onerror": True, "retry": True,
+                            "fresh_index": fresh})
+    return out
+
+
+def gen_retry_case(ctx):
+    """a two-round history on one lazily loaded target: directory object(s) absent in round 1, present in round 2"""
+    rng = ctx.rng
+    for _ in range(100):
+        case = gen_case(ctx, rng.choice(["lazy-root", "mixed", "mixed"]))
+        tids = ["t%d" % i for i, e in enumerate(case.get("spec") or []) if e["t"] == "lazy"]
+        if tids:
+            break
+    case.pop("rm_contents", None)
+    case["rm_trees"] = rng.sample(tids, rng.randint(1, len(tids)))
+    case["retry"] = True
+    case["collect_onerror"] = rng.random() < 0.8   # a handler that swallows the failure
+    case["fresh_index"] = rng.random() < 0.3       # control: a new index object for round 2
+    case["delete"] = rng.random() < 0.8
+    return case
+
+
+def judge(ctx, case, items, stream, retry_items=None):
     res = run_real(ctx, case)
     p1 = res["plan1"]
     nontrivial = any(p1[f] for f in p1)
@@ -773,6 +878,15 @@ def judge(ctx, case, items, stream):
         ctx.oracle_fail(sig, what, case)
     if res["plan2"] is not None:
         items.append((case, case_term(case, res), expected_val(res)))
+    if "r2" in res:
+        ctx.count("retry:" + ("fresh-index" if case.get("fresh_index") else "same-index")
+                  + (":swallowing-onerror" if case.get("collect_onerror") else ":raising-onerror"))
+        if res["gone_trees"]:
+            ctx.count("retry:directory-object-absent-in-round-1")
+        for sig, what in retry_oracle(case, res):
+            ctx.oracle_fail(sig, what, case)
+        if res["plan2"] is not None and res["r2"]["plan2"] is not None and retry_items is not None:
+            retry_items.append((case, retry_term(case, res), retry_expected(res)))
     return res
 
 
@@ -841,19 +955,27 @@ def run(ctx):
     corpus = scripted()
     for c in corpus:
         judge(ctx, finish_case(ctx, c), items, "corpus")
-    n_main = ctx.n(170, 2600)
+    n_main = ctx.n(150, 2600)
     for _ in range(n_main):
         judge(ctx, gen_case(ctx), items, "main")
     n_impl = ctx.n(25, 300)
     for _ in range(n_impl):
         judge(ctx, gen_case(ctx, "implicit"), items, "implicit")
-    n_dang = ctx.n(45, 500)
+    n_dang = ctx.n(40, 500)
     for _ in range(n_dang):
         judge(ctx, gen_case(ctx, "dangling"), items, "dangling")
+    retry_items = []
+    for c in scripted_retry():
+        judge(ctx, finish_case(ctx, c), items, "corpus", retry_items)
+    n_retry = ctx.n(24, 400)
+    for _ in range(n_retry):
+        judge(ctx, gen_retry_case(ctx), items, "retry", retry_items)
     ctx.obligation("oracle:checkout", not any(v.kind == "oracle" for v in ctx.violations),
                    f"{len(items)} compare+apply+compare runs judged: walk equals target, second compare empty, "
                    "nothing outside the target removed without delete, unavailable sources reported")
     ctx.correspond("checkout", IMPORTS, "case", "run_case", items, shard=120)
+    ctx.correspond("retry", IMPORTS, "case * trees * list key * list key",
+                   "fun i => match i with (c, tr2, o2, odc2) => run_retry c tr2 o2 odc2 end", retry_items, shard=120)
     b = branch_items(ctx)
     ctx.correspond("branch", IMPORTS, "bool * bool * N * option ientry * option ientry * bool",
                    "fun i => match i with (r, d, t, o, n, h) => enc_branch r d t o n h end", b, shard=300)
